@@ -38,20 +38,20 @@ type token struct {
 
 // Ev is one observed hook invocation.
 type Ev struct {
-	Seq        int    `json:"seq"`
-	Kind       string `json:"kind"` // "start" | "end"
-	Tok        int64  `json:"tok"`  // id of the token issued (start) / recognised by pointer identity (end); 0 = not one of ours
-	Foreign    string `json:"foreign_token,omitempty"`
-	Method     string `json:"method"`
-	MethodType string `json:"method_type"`
-	RequestID  string `json:"request_id,omitempty"`
-	StreamID   string `json:"stream_id,omitempty"`
-	Cancelled  bool   `json:"cancelled,omitempty"`
-	Mode       string `json:"mode"`
-	Panicked   bool   `json:"panicked,omitempty"` // the hook panicked in this invocation (scripted)
-	HasErr     bool   `json:"has_err"`
-	Err        string `json:"err,omitempty"`
-	CtxLost    bool   `json:"ctx_lost,omitempty"` // end: the context does not descend from the one start returned
+	Seq         int    `json:"seq"`
+	Kind        string `json:"kind"` // "start" | "end"
+	Tok         int64  `json:"tok"`  // id of the token issued (start) / recognised by pointer identity (end); 0 = not one of ours
+	Foreign     string `json:"foreign_token,omitempty"`
+	Method      string `json:"method"`
+	MethodType  string `json:"method_type"`
+	RequestID   string `json:"request_id,omitempty"`
+	StreamID    string `json:"stream_id,omitempty"`
+	Cancelled   bool   `json:"cancelled,omitempty"`
+	Mode        string `json:"mode"`
+	Panicked    bool   `json:"panicked,omitempty"` // the hook panicked in this invocation (scripted)
+	HasErr      bool   `json:"has_err"`
+	Err         string `json:"err,omitempty"`
+	CtxLost     bool   `json:"ctx_lost,omitempty"`    // end: the context does not descend from the one start returned
 	Traceparent string `json:"traceparent,omitempty"` // start: TransportMetadata["traceparent"]
 }
 
